@@ -1408,13 +1408,11 @@ impl ASN1Value {
                 }
                 Ok(())
             }
-            (ASN1Type::Enumerated(_), ASN1Value::LinkedNestedValue { value, .. })
+            (ASN1Type::Enumerated(e), ASN1Value::LinkedNestedValue { value, .. })
                 if matches![**value, ASN1Value::ElsewhereDeclaredValue { .. }] =>
             {
                 if let ASN1Value::ElsewhereDeclaredValue { identifier, .. } = &**value {
-                    if let Some((_, tld)) = tlds
-                        .iter()
-                        .find(|(_, tld)| tld.has_enum_value(None, identifier))
+                    if let Some(tld) = Self::enumerated_with_enumeral(tlds, e, type_name, identifier)
                     {
                         **value = ASN1Value::EnumeratedValue {
                             enumerated: tld.name().clone(),
@@ -1424,11 +1422,8 @@ impl ASN1Value {
                 }
                 Ok(())
             }
-            (ASN1Type::Enumerated(_), ASN1Value::ElsewhereDeclaredValue { identifier, .. }) => {
-                if let Some((_, tld)) = tlds
-                    .iter()
-                    .find(|(_, tld)| tld.has_enum_value(None, identifier))
-                {
+            (ASN1Type::Enumerated(e), ASN1Value::ElsewhereDeclaredValue { identifier, .. }) => {
+                if let Some(tld) = Self::enumerated_with_enumeral(tlds, e, type_name, identifier) {
                     *self = ASN1Value::EnumeratedValue {
                         enumerated: tld.name().clone(),
                         enumerable: identifier.clone(),
@@ -1453,6 +1448,31 @@ impl ASN1Value {
             (_, ASN1Value::ElsewhereDeclaredValue { .. }) => Err(GrammarError::todo()),
             _ => Ok(()),
         }
+    }
+
+    /// The ENUMERATED definition an enumeral belongs to: the governing type itself (by name,
+    /// or the definition of that very enumeration), before any other type that happens to
+    /// have an enumeral of the same spelling.
+    fn enumerated_with_enumeral<'a>(
+        tlds: &'a BTreeMap<String, ToplevelDefinition>,
+        governing: &Enumerated,
+        type_name: Option<&String>,
+        identifier: &String,
+    ) -> Option<&'a ToplevelDefinition> {
+        let is_governing = |tld: &ToplevelDefinition| {
+            matches!(tld, ToplevelDefinition::Type(t) if matches!(&t.ty, ASN1Type::Enumerated(e) if e == governing))
+        };
+        type_name
+            .and_then(|n| tlds.get(n))
+            .filter(|tld| tld.has_enum_value(None, identifier))
+            .or_else(|| {
+                tlds.values()
+                    .find(|tld| is_governing(tld) && tld.has_enum_value(None, identifier))
+            })
+            .or_else(|| {
+                tlds.values()
+                    .find(|tld| tld.has_enum_value(None, identifier))
+            })
     }
 
     fn link_enum_or_distinguished(
